@@ -16,6 +16,17 @@ claimed.update({
  "C05": ("continuity counters of consecutive payload packets per PID across histories and across one inductive step (invariant: counter state == cc of the last packet actually written)", "§3 C04/C05/C17/C01"),
  "C17": ("table emission positions (first, every period, before RAI on the PCR PID), PMT/PAT contents, version rule and automatic PID assignment, over histories and one inductive step", "§3 C04/C05/C17/C01"),
 })
+claimed.update({
+ "C02": ("reference-multiplexed streams (PES and PSI units, every split point in the bound, pointer fields, multi-section units, all 210 interleavings of a 4-PID stream) drained through NextData and compared unit by unit, including delivery order, EOF drain and the no-read-ahead position check", "§3 C02"),
+ "C03": ("panic-freedom of parsePESData / parsePSIData / isPSIComplete / descriptor parsers on every byte string up to the stated lengths, and progress/termination of NextPacket/NextData on inputs of the listed lengths with arbitrary packet headers", "§3 C03"),
+ "C06": ("every single duplication and every 1..3-packet deletion position of a 2-PID stream, and the packet accumulator on packets with symbolic counters/flags, compared with the fault-free run", "§3 C06"),
+ "C07": ("packet pool on two PIDs with symbolic counters/flags under every merge and inserted noise packet; EOF drain order; recycled pool buffers with arbitrary stale contents; junk on a foreign PID", "§3 C07"),
+ "C08": ("same stream through seekable/plain/bufio readers under all triples of short-read sizes from a representative set, explicit and auto-detected sizes 188..192, oversize packets with arbitrary extra bytes", "§3 C08"),
+ "C16": ("sequential aliasing: every returned slice is snapshotted and re-compared after every later call on the same and on a second demuxer; muxer leaves the payload untouched (data races are outside the technique: see level_note)", "§3 C16"),
+ "C18": ("reader failing at each listed byte offset and writer failing at every Write call index (permanent / one-shot): error surfaces wrapping the cause, count bounded, prefix of the fault-free output", "§3 C18"),
+ "C19": ("all 2^5 skipper decisions on a 5-packet stream against the pre-filtered stream, callback arguments and call counts; packets parser as observer / replacer / failing", "§3 C19"),
+ "C20": ("Rewind after every number of NextPacket/NextData calls (also twice), explicit and auto-detected size, followed by a full drain compared with a fresh demuxer", "§3 C20"),
+})
 pending = {}
 na_reason = "no check is registered for this property at this commit (harness not built yet); it is not claimed"
 all_ids = ["C%02d" % i for i in range(1, 21)]
